@@ -1,1 +1,62 @@
+//! marketsim — the pure model (`gmsol-model`) under a simulated clock, failing storage and a token ledger.
+pub mod c02;
+pub mod c03;
+pub mod c04;
+pub mod c05;
+pub mod c06;
+pub mod cfg;
+pub mod fault;
+pub mod gen;
+pub mod num;
+pub mod refmath;
+pub mod scenario;
+pub mod world;
 
+use scenario::MarketHistory;
+use simcore::{CheckSpec, Part};
+
+pub const PROPERTIES: &[&str] = &["C02", "C03", "C04", "C05", "C06"];
+
+fn common_assumptions() -> Vec<String> {
+    vec![
+        "Market container (pools, clock, supply, virtual inventories) is the simulator's own implementation of the gmsol-model traits for u128 / 20 decimals; every action executed is the real gmsol-model code from /repo's working tree.".into(),
+        "Failed operations are rolled back by the harness (as a failed transaction is by the store), except Swap whose own atomicity is observed before the rollback.".into(),
+        "Inputs are those the simulation produces (token decimals 6-9, unit prices 10^11..10^17, pools of $10^3..$10^9, amounts from 1 base unit to more than the pool); no claim of uniform coverage of u128.".into(),
+    ]
+}
+
+pub fn registry(property: &str) -> Option<CheckSpec> {
+    let spec = |property: &'static str, level: &'static str, q: u64, t: u64, extra: Vec<String>| {
+        let mut assumptions = common_assumptions();
+        assumptions.extend(extra);
+        CheckSpec {
+            property,
+            level,
+            parts: vec![Part::new(MarketHistory::for_focus(property), q, t)],
+            assumptions,
+        }
+    };
+    match property {
+        "C02" => Some(spec("C02", "exploration", 20_000, 400_000, vec![
+            "FeeParams is driven through the operations and by direct calls of apply_fees / fee on params objects built from the simulated configuration with simulated amounts; LiquidationFeeParams::fee through liquidations and PositionExt::position_fees(.., true) on simulated positions.".into(),
+            "Reports do not say which balance-change kind was charged, so a report is accepted if it equals the reference for either factor.".into(),
+        ])),
+        "C03" => Some(spec("C03", "exploration", 20_000, 400_000, vec![
+            "Pool balance is measured at mid prices on the requested USD deltas, as the impact computation itself defines it.".into(),
+            "Exact reference impacts (virtual inventory clause) exist only for unit-multiple exponents 0x..8x; fractional exponents are exercised but only the sign and round-trip oracles apply to them.".into(),
+            "Round-trip tolerance is 2 units of 10^-20 USD (truncation of four fixed-point products).".into(),
+        ])),
+        "C04" => Some(spec("C04", "fault_enumeration", 12_000, 250_000, vec![
+            "Fault points are the fallible storage calls the swap makes on SimMarket (pool accessors, parameter getters, pool arithmetic); a *_mut accessor is a fault point only if the pool kind was not read successfully before in the operation (trait contract), and a failed pool kind stays unavailable for the rest of the operation.".into(),
+            "Enumeration is exhaustive over the fault points of each sampled swap, not over swaps.".into(),
+        ])),
+        "C05" => Some(spec("C05", "exploration", 20_000, 400_000, vec![
+            "Funded impact is read from the swap impact pool deltas and valued at the maximum prices (the most generous reading of the statement).".into(),
+        ])),
+        "C06" => Some(spec("C06", "exploration", 12_000, 250_000, vec![
+            "Round trips are forks at points of simulated histories; the fork first settles the fee state (distribute, borrowing, funding) like the store does before every deposit and withdrawal.".into(),
+            "Per-token value uses the code's public pool_value under the valuation the leg itself uses; the cross valuations are checked only without price spread and without a binding pnl cap.".into(),
+        ])),
+        _ => None,
+    }
+}
